@@ -4,6 +4,7 @@ import BoboVerif.Lemmas.RunChange
 import BoboVerif.Lemmas.LocalStarts
 import BoboVerif.Lemmas.LocalExact
 import BoboVerif.Lemmas.IdInv
+import BoboVerif.Lemmas.LocalSim
 /-!
 C03 — Replication is transparent and survivors take over (failover equivalence).
 
@@ -533,6 +534,103 @@ theorem split_stream_mirror_n (c : Cfg ε) (hc : c.caching = true) (hns : NoSing
         · intro ph pa id r hr
           rw [hinvJ.mirror.memC, hinvJ.mirror.memH]
           exact hidsI.fresh ph pa id r (toI _ _ _ r hr)
+
+/-! ### ONE engine fed the whole stream shadows the cluster -/
+
+theorem wf_localStep (c : Cfg ε) (s s' : DState ε) (e : ε) (nt : Notif ε) (ch : Bool) (hwf : TableWF s.table)
+    (hstep : localStep c s e = some (s', nt, ch)) : TableWF s'.table := by
+  unfold localStep at hstep
+  have hwf1 := wf_checkAgainstRuns e s.table hwf
+  generalize checkAgainstRuns e s.table = car at hstep hwf1
+  obtain ⟨t1, rhc, rhi, rupd⟩ := car
+  simp only at hstep hwf1
+  cases hp : checkAgainstPatterns c e t1 s.nextId with
+  | none => simp [hp] at hstep
+  | some acc =>
+    simp only [hp, Option.some.injEq, Prod.mk.injEq] at hstep
+    obtain ⟨hs', _, _⟩ := hstep
+    subst hs'
+    rw [maybeCache_table]
+    exact (checkAgainstPatterns_rel c e t1 s.nextId acc hp).wf hwf1
+
+/-- the reference: ONE engine that is fed every event of the stream.  Run identifiers are labels, so the
+reference draws them from the same source as the instance that is given the event (generator `g`, counter `n`
+of that instance). -/
+def refStep (c : Cfg ε) (g : Nat → String) (n : Nat) (s : DState ε) (e : ε) : Option (DState ε × Notif ε × Bool) :=
+  localStep (withIds c g) { s with nextId := n } e
+
+/-- the cluster (`LockN`) with the reference engine running alongside. -/
+inductive LockRef (c : Cfg ε) {n : Nat} (f : Fin n → Nat → String) : (Fin n → DState ε) → DState ε → Prop
+  | init : LockRef c f (fun _ => {}) {}
+  | step {node node' : Fin n → DState ε} {s s' : DState ε} {i : Fin n} {e : ε} {nt ntS : Notif ε} {ch chS : Bool}
+      (h : LockRef c f node s)
+      (hA : localStep (withIds c (f i)) (node i) e = some (node' i, nt, ch))
+      (hB : ∀ j, j ≠ i → ∃ nB, remoteStep (withIds c (f j)) (node j) nt.completed nt.halted nt.updated = some (node' j, nB))
+      (room : Room c (node i) nt)
+      (hS : refStep c (f i) (node i).nextId s e = some (s', ntS, chS)) : LockRef c f node' s'
+
+theorem LockRef.cluster {c : Cfg ε} {n : Nat} {f : Fin n → Nat → String} {node : Fin n → DState ε} {s : DState ε}
+    (h : LockRef c f node s) : LockN c f node := by
+  induction h with
+  | init => exact .init
+  | step _ hA hB room _ ih => exact .step ih hA hB room
+
+/-- key-wise equality of the tables of two instances of the cluster (all keys, not only known ones). -/
+theorem keyEq_of_lockInvN {c : Cfg ε} {n : Nat} {f : Fin n → Nat → String} {node : Fin n → DState ε}
+    (h : LockInvN c f node) (i j : Fin n) : KeyEq (node i).table (node j).table := by
+  intro ph pa id
+  cases hp : c.getPattern ph pa with
+  | some p => exact ((h.mirror i j).runs ph pa id (by rw [hp]; rfl)).symm
+  | none =>
+    have hnone : ∀ k, (node k).table.runAt ph pa id = none := by
+      intro k
+      cases hr : (node k).table.runAt ph pa id with
+      | none => rfl
+      | some r => have := (h.ids k).known ph pa id r hr; rw [hp] at this; simp at this
+    rw [hnone i, hnone j]
+
+/-- **one step of the cluster against ONE engine**: if every instance's table agrees key by key with the
+reference engine's, then whichever instance is given the next event, (1) the reference engine can process it
+too, (2) for every run key it announces exactly the completed / halted / updated records the instance
+announces — in particular the same complex events, history content included — and (3) afterwards every
+instance's table again agrees key by key with the reference's. -/
+theorem single_engine_step (c : Cfg ε) (hc : c.caching = true) (hns : NoSing c) (hcw : CfgWF c) {n : Nat}
+    (f : Fin n → Nat → String) (G : GensN f) (node node' : Fin n → DState ε) (s : DState ε)
+    (hN : LockN c f node) (hsim : ∀ j, KeyEq (node j).table s.table) (hwfS : TableWF s.table)
+    (i : Fin n) (e : ε) (nt : Notif ε) (ch : Bool)
+    (hA : localStep (withIds c (f i)) (node i) e = some (node' i, nt, ch))
+    (hB : ∀ j, j ≠ i → ∃ nB, remoteStep (withIds c (f j)) (node j) nt.completed nt.halted nt.updated = some (node' j, nB))
+    (room : Room c (node i) nt) :
+    ∃ s' ntS chS, refStep c (f i) (node i).nextId s e = some (s', ntS, chS) ∧
+      (∀ ph pa id,
+        nt.completed.filter (keyMatch ph pa id) = ntS.completed.filter (keyMatch ph pa id) ∧
+        nt.halted.filter (keyMatch ph pa id) = ntS.halted.filter (keyMatch ph pa id) ∧
+        nt.updated.filter (keyMatch ph pa id) = ntS.updated.filter (keyMatch ph pa id)) ∧
+      (∀ j, KeyEq (node' j).table s'.table) ∧ TableWF s'.table := by
+  have hinv := split_stream_mirror_n c hc hns hcw f G node hN
+  have hinv' := split_stream_mirror_n c hc hns hcw f G node' (.step hN hA hB room)
+  obtain ⟨s', ntS, chS, hS, hk', _, hlists⟩ := local_sim (withIds c (f i)) hns hcw (node i)
+    { s with nextId := (node i).nextId } (node' i) e nt ch (hinv.wf i) hwfS (hsim i) rfl hA
+  refine ⟨s', ntS, chS, hS, hlists, fun j => (keyEq_of_lockInvN hinv' j i).trans hk', ?_⟩
+  exact wf_localStep (withIds c (f i)) { s with nextId := (node i).nextId } s' e ntS chS hwfS hS
+
+/-- **the cluster and ONE engine fed the whole stream agree after every input**: for every reachable state
+of the cluster with the reference engine alongside, every instance holds under every key exactly the run the
+reference engine holds (identifier, index, history content); by `single_engine_step` the announcements of
+every step agree key by key as well, and the reference engine is never stuck. -/
+theorem single_engine_shadows (c : Cfg ε) (hc : c.caching = true) (hns : NoSing c) (hcw : CfgWF c) {n : Nat}
+    (f : Fin n → Nat → String) (G : GensN f) (node : Fin n → DState ε) (s : DState ε) (h : LockRef c f node s) :
+    (∀ j, KeyEq (node j).table s.table) ∧ TableWF s.table := by
+  induction h with
+  | init => exact ⟨fun _ => KeyEq.refl _, wf_empty⟩
+  | @step node node' s s' i e nt ntS ch chS hprev hA hB room hS ih =>
+    obtain ⟨s2, ntS2, chS2, hS2, _, hk2, hwf2⟩ := single_engine_step c hc hns hcw f G node node' s hprev.cluster
+      ih.1 ih.2 i e nt ch hA hB room
+    rw [hS] at hS2
+    simp only [Option.some.injEq, Prod.mk.injEq] at hS2
+    obtain ⟨e1, _, _⟩ := hS2
+    subst e1
+    exact ⟨hk2, hwf2⟩
 
 /-! non-vacuity of `replica_mirrors_runs`: a concrete two-pattern configuration and a step that halts one run and starts another -/
 section example_
